@@ -46,7 +46,12 @@ trait HK: Header {
 impl HK for TagHeader {
     const NAME: &'static str = "TagHeader";
     const N: usize = 8;
-    fn prepare(b: &mut [u8], d: u32, _: &mut Rng) {
+    fn prepare(b: &mut [u8], d: u32, r: &mut Rng) {
+        // the other word of the header must not matter: one time in three it is a
+        // specified type id (0 = end tag, 3 = module, ...) instead of a marker
+        if r.chance(1, 3) {
+            put32(b, 0, *r.pick(&[0u32, 0, 1, 3, 8, 21]));
+        }
         put32(b, 4, d);
     }
 }
@@ -61,7 +66,7 @@ impl HK for HeaderTagHeader {
     const NAME: &'static str = "HeaderTagHeader";
     const N: usize = 8;
     fn prepare(b: &mut [u8], d: u32, r: &mut Rng) {
-        put16(b, 0, r.below(11) as u16);
+        put16(b, 0, if r.chance(1, 3) { 0 } else { r.below(11) as u16 });
         put16(b, 2, r.below(2) as u16);
         put32(b, 4, d);
     }
